@@ -283,6 +283,7 @@ def correspondence(ctx):
     # ---- the shipped configuration: the documented 'all_attackers' wildcard in the Defender's goal
     probe_shipped(ctx, nsgenv, CR)
     probe_role_limits(ctx, nsgenv)
+    probe_switches(ctx, nsgenv, CR)
     # ---- dynamic addresses: the configured start position is what the game uses for agents joining after re-labellings
     from props import dynprobe
     dynprobe.run(ctx, "C19")
@@ -392,6 +393,104 @@ def probe_role_limits(ctx, nsgenv):
             d.close()
 
 
+def probe_switches(ctx, nsgenv, CR):
+    """The global-defender, trajectory and firewall switches each take the configured value (absent = off), in EVERY combination
+    with the other two: behaviour-level effect of each switch on the real coordinator.
+
+    * global defender: with the detection draw scripted to 0.0 an attacker repeating one scan is detected (its episode ends with
+      reason Fail) as soon as the thresholds are passed iff the switch is on; off/absent: the scan can be repeated 8 times;
+    * trajectories: after the collective reset a record of the finished episode is in the trajectories folder iff the switch is on;
+      the trajectory handed out with the reset (request_trajectory) has the actions played, whatever the switch says;
+    * firewall: off/absent: a scan of 192.168.1.0/24 from 192.168.2.2 finds every host of that network; on: the scenario's rules
+      hide some of them."""
+    import itertools
+    import ipaddress
+    from nsgenv import msg, ip
+    values = (True, False, None)
+    stats = {"combinations": 0}
+    for gd, save, fw in itertools.product(values, values, values):
+        cfg = nsgenv.base_config("scenario1_small", required_players=1)
+        for key, v in (("use_global_defender", gd), ("save_trajectories", save), ("use_firewall", fw)):
+            if v is None:
+                cfg["env"].pop(key, None)
+            else:
+                cfg["env"][key] = v
+        A = cfg["coordinator"]["agents"]["Attacker"]
+        A.pop("max_steps", None)
+        A["goal"]["known_data"] = {}
+        A["goal"]["known_hosts"] = ["1.1.1.1"]
+        replay = {"kind": "switches", "use_global_defender": gd, "save_trajectories": save, "use_firewall": fw}
+        try:
+            S = CR.Session(cfg, draw=0.0)
+        except Exception as e:
+            ctx.violations.append({"key": "coordinator does not start (switches)", "what": f"{replay}: {type(e).__name__}: {e}", "replay": replay})
+            continue
+        stats["combinations"] += 1
+        try:
+            S.d.on_segment = None
+            d, g = S.d, S.g
+            a = ("10.3.7.1", 701)
+            d.connect(a); d.settle()
+            d.send(a, nsgenv.join("att", "Attacker")); d.settle()
+            d.new_output(a)
+            scan = msg("ScanNetwork", source_host=ip("192.168.2.2"), target_network={"ip": "192.168.1.0", "mask": 24})
+            docs = []
+            for k in range(8):
+                d.send(a, scan); d.settle()
+                o = [json.loads(r[:-3].decode()) for r in d.new_output(a)]
+                if len(o) != 1:
+                    ctx.violations.append({"key": "switch probe: action not answered", "what": f"{replay}: scan {k + 1} got {len(o)} answers; {d.task_errors[:1]}", "replay": replay})
+                    break
+                docs.append(o[0])
+                if o[0]["observation"]["end"]:
+                    break
+            else:
+                k = 8
+            if not docs:
+                continue
+            last = docs[-1]["observation"]
+            detected = bool(last["end"]) and "Fail" in str(last["info"].get("end_reason"))
+            if bool(gd) != detected:
+                ctx.violations.append({"key": f"use_global_defender={gd} not honoured (save_trajectories={save})",
+                                       "what": f"{replay}: with the detection draw scripted to 0.0, one scan repeated {len(docs)} times ended with end={last['end']} reason={last['info'].get('end_reason')}; the switch being {'on' if gd else 'off/absent'} the attacker must {'be detected' if gd else 'never be detected'}",
+                                       "replay": replay})
+            seen = {h["ip"] for h in docs[0]["observation"]["state"]["known_hosts"]}
+            net = ipaddress.ip_network("192.168.1.0/24")
+            all_hosts = {str(h) for h in g._ip_to_hostname if ipaddress.ip_address(str(h)) in net}
+            in_net = {h for h in seen if ipaddress.ip_address(h) in net}
+            if (not fw and in_net != all_hosts) or (fw and not (in_net < all_hosts)):
+                ctx.violations.append({"key": f"use_firewall={fw} not honoured",
+                                       "what": f"{replay}: the scan of 192.168.1.0/24 from 192.168.2.2 found {sorted(in_net)} of {sorted(all_hosts)}; with the firewall {'on the scenario rules hide some hosts' if fw else 'off/absent every host answers'}",
+                                       "replay": replay})
+            d.send(a, msg("ResetGame", request_trajectory="True")); d.settle()
+            o = [json.loads(r[:-3].decode()) for r in d.new_output(a)]
+            if len(o) != 1 or "RESET_DONE" not in o[0].get("status", ""):
+                ctx.violations.append({"key": "switch probe: reset not confirmed", "what": f"{replay}: {[x.get('status') for x in o]} {d.task_errors[:1]}", "replay": replay})
+                continue
+            lt = o[0]["message"].get("last_trajectory") or {}
+            n_act = len((lt.get("trajectory") or {}).get("actions", []))
+            if n_act != len(docs):
+                ctx.violations.append({"key": f"trajectory handed out with the reset (save_trajectories={save})",
+                                       "what": f"{replay}: {len(docs)} actions were answered in the episode, the trajectory attached to RESET_DONE has {n_act}", "replay": replay})
+            tdir = os.path.join(S.workdir, "trajectories")
+            recs = []
+            if os.path.isdir(tdir):
+                for fn in os.listdir(tdir):
+                    recs += [json.loads(l) for l in open(os.path.join(tdir, fn)) if l.strip()]
+            if bool(save) != bool(recs) or (recs and len(recs[0]["trajectory"]["actions"]) != len(docs)):
+                ctx.violations.append({"key": f"save_trajectories={save} not honoured (use_global_defender={gd})",
+                                       "what": f"{replay}: after the reset the trajectories folder holds {len(recs)} record(s) ({[len(r['trajectory']['actions']) for r in recs]} actions) for an episode of {len(docs)} actions; the switch is {'on' if save else 'off/absent'}",
+                                       "replay": replay})
+            if d.task_errors:
+                ctx.violations.append({"key": "task died in the switch probe", "what": f"{replay}: {d.task_errors[:1]}", "replay": replay})
+        except Exception as e:
+            import traceback
+            ctx.stage_errors.append((f"switch probe {replay}", f"{type(e).__name__}: {e}\n{traceback.format_exc()[-600:]}"))
+        finally:
+            S.close()
+    ctx.coverage["switch_probe"] = stats
+
+
 def probe_shipped(ctx, nsgenv, CR):
     """The shipped configuration: Defender goal known_blocks {213.47.23.195: 'all_attackers'}."""
     path = os.path.join(CK.REPO, "AIDojoCoordinator", "netsecenv_conf.yaml")
@@ -433,6 +532,15 @@ def replay(ctx, payload):
         nsgenv, WL, WR, CR = _imports()
         c2 = CK.Ctx("C19", "quick", 1)
         probe_role_limits(c2, nsgenv)
+        for v in c2.violations:
+            print(v["what"])
+        if c2.violations:
+            print("VIOLATION property=C19 replay=(this file)")
+        return 1 if c2.violations else 0
+    if payload.get("kind") == "switches":
+        nsgenv, WL, WR, CR = _imports()
+        c2 = CK.Ctx("C19", "quick", 1)
+        probe_switches(c2, nsgenv, CR)
         for v in c2.violations:
             print(v["what"])
         if c2.violations:
